@@ -216,6 +216,22 @@ def run_case(case, ctx):
                 break
         if st.stop_training is not True:
             ctx.violation("stop-not-persistent", "stop_training is not True after the run", tags=tags, witness=wit)
+        # the request belongs to the model it was made on: another model in the same process trains normally, and
+        # resetting the flag on that other model does not take this model's request back
+        other = gen.make_state(kind, am, ph)
+        olog = trainrec.Log()
+        pend = bool(other.stop_training)
+        ctx.lib("fit(bystander model)", other.fit, data, epochs=1, pos_batch_size=c["pos"], lr=0.1,
+                callbacks=[trainrec.recorder_callback(olog, cb_id=0)], tags=tags, **kw)
+        oev = [e["event"] for e in olog if e["type"] == "cb"]
+        ctx.count("bystander_models_checked")
+        if pend or oev[:2] != ["train_start", "epoch_start"] or oev[-1:] != ["train_end"] or "batch_end" not in oev:
+            ctx.violation("stop-leaks-between-models", f"a stop requested on one model: a freshly built second model reports stop_training={pend} "
+                          f"and its one-epoch fit delivered {oev[:4]}..{oev[-1:]} ({len(oev)} events)", tags=tags, witness=wit)
+        other.stop_training = False
+        if st.stop_training is not True:
+            ctx.violation("stop-leaks-between-models", "resetting stop_training on another model withdrew this model's pending request",
+                          tags=tags, witness=wit)
     # ---- parameters change only between a batch_start and its batch_end
     flat = []
     for m in macro:
